@@ -36,6 +36,7 @@ def bounds(tier):
 # -- universe: element descriptions (plain data) --------------------------------
 def universe():
     u = [('M',), ('F',), ('S', 20, 1.0), ('S', 30, 2.0), ('S', 15, None),
+         ('S', 22, 0.1, 'cm'), ('S', 26, 1.0, 'cm'), ('S', 28, 0.002, 'm'),      # the same and other modules written in other units
          ('H', 20, 20.0, 'deg'), ('H', 25, math.radians(20.0), 'rad'), ('H', 30, 30.0, 'deg')]
     for a in ALPHAS:
         for b in (0.0, 5.0, 15.0, MAXH[a]):
@@ -54,7 +55,7 @@ def build(desc, name):
         return Flywheel(name=name, inertia_moment=J1)
     if k == 'S':
         return SpurGear(name=name, n_teeth=desc[1], inertia_moment=J1,
-                        module=None if desc[2] is None else Length(desc[2], 'mm'))
+                        module=None if desc[2] is None else Length(desc[2], desc[3] if len(desc) > 3 else 'mm'))
     if k == 'H':
         return HelicalGear(name=name, n_teeth=desc[1], inertia_moment=J1, helix_angle=Angle(desc[2], desc[3]))
     if k == 'Wg':
@@ -122,11 +123,14 @@ def ref_gear(da, db, same, eff):
         return 'reject'
     if not isinstance(eff, (int, float)) or isinstance(eff, bool) and False:
         return 'reject'
-    if eff > 1 or eff < 0:
+    if not 0 <= eff <= 1:
         return 'reject'
-    ma = da[2] if da[0] == 'S' else None
-    mb = db[2] if db[0] == 'S' else None
-    if ma is not None and mb is not None and ma != mb:
+    def module_si(d):
+        if d[0] != 'S' or d[2] is None:
+            return None
+        return si.si(d[2], 'Length', d[3] if len(d) > 3 else 'mm')
+    ma, mb = module_si(da), module_si(db)
+    if ma is not None and mb is not None and abs(ma - mb) > 1e-9 * max(ma, mb):
         return 'reject'
     ha, hb = da[0] in ('H', 'Ww'), db[0] in ('H', 'Ww')
     if ha != hb:
@@ -146,7 +150,7 @@ def ref_worm(da, db, same, f):
         return 'reject', None
     if not isinstance(f, (int, float)):
         return 'reject', None
-    if f > 1 or f < 0:
+    if not 0 <= f <= 1:
         return 'reject', None
     if da[2] != db[2]:
         return 'reject', None                 # different pressure angle
@@ -173,7 +177,18 @@ def ref_joint(da, db, same):
     return 'accept'
 
 
+def unwrap(param):
+    """['np', x] -> numpy.float64(x): a float subclass users get from any numpy computation"""
+    if isinstance(param, (list, tuple)) and len(param) == 2 and param[0] == 'np':
+        import numpy
+        return numpy.float64(param[1])
+    if isinstance(param, (list, tuple)) and param[0] == 'nan':
+        return float('nan')
+    return param
+
+
 def call(func, a, b, param):
+    param = unwrap(param)
     try:
         if func == 'gear':
             add_gear_mating(master=a, slave=b, efficiency=param)
@@ -192,6 +207,11 @@ def teeth(d):
 
 def judge(acc, case, func, da, db, a, b, param, before_a, before_b, ids, outcome, sigpfx):
     """Post-condition of one declaration call on elements a, b."""
+    numpy_param = isinstance(param, (list, tuple))
+    tag = param[0] if numpy_param else None
+    param = float(unwrap(param)) if numpy_param else param
+    if numpy_param:
+        sigpfx = sigpfx + ('/numpy-float' if tag == 'np' else '/nan')
     same = a is b
     info = None
     if func == 'gear':
@@ -265,13 +285,13 @@ def judge(acc, case, func, da, db, a, b, param, before_a, before_b, ids, outcome
     return True
 
 
-EFFS = [-0.1, 0, 0.5, 1, 1.1, '0.9']
+EFFS = [-0.1, 0, 0.5, 1, 1.1, '0.9', ['np', 0.9], ['nan']]
 
 
 def frictions(desc_worm):
     alpha, beta = math.radians(desc_worm[2]), helix_rad(desc_worm)
     fs = math.cos(alpha) * math.tan(beta)
-    return [-0.1, 0, 0.5 * fs, 0.98 * fs, 1.02 * fs, min(1.0, 2 * fs), 1, 1.1]
+    return [-0.1, 0, 0.5 * fs, 0.98 * fs, 1.02 * fs, min(1.0, 2 * fs), 1, 1.1, ['np', 0.5 * fs], ['np', min(1.0, 1.5 * fs)], ['nan']]
 
 
 def check_one_step(acc, ia, ib, func, param, U):
